@@ -10,7 +10,7 @@ import z3
 
 from . import ops
 from .loader import ClassInfo, ExtModule, builtin_class, has_builtin_class
-from .values import (ARR, BV8, FALSE, Guarded, INT, MAXLEN, NONE, TRUE, W, HObj, Lit, Unsupported, V, VBool,
+from .values import (tid, ARR, BV8, FALSE, Guarded, INT, MAXLEN, NONE, TRUE, W, HObj, Lit, Unsupported, V, VBool,
                      VBytes, VFloat, VInt, VNone, VRef, VStr, VTuple, VUnion, View, as_const, byte_val,
                      concat, fresh, iadd, isub, mkbool, mkint, _iv)
 
@@ -81,17 +81,17 @@ def vkey(I, v):
     if isinstance(v, VInt):
         if v.c is not None:
             return ("i", v.c)
-        return ("it", z3.simplify(v.b if v.b is not None else v.i).get_id())
+        return ("it", tid(v.b if v.b is not None else v.i))
     if isinstance(v, VStr):
-        return ("s", v.c) if v.c is not None else ("st", v.t.get_id())
+        return ("s", v.c) if v.c is not None else ("st", tid(v.t))
     if isinstance(v, VBool):
-        return ("b", v.c) if v.c is not None else ("bt", v.t.get_id())
+        return ("b", v.c) if v.c is not None else ("bt", tid(v.t))
     if isinstance(v, VNone):
         return ("none",)
     if isinstance(v, VTuple):
         return ("tup",) + tuple(vkey(I, x) for x in v.items)
     if isinstance(v, VFloat):
-        return ("f", v.c) if v.c is not None else ("ft", v.t.get_id())
+        return ("f", v.c) if v.c is not None else ("ft", tid(v.t))
     if isinstance(v, VRef):
         return ("ref", v.ref)
     raise Unsupported(f"opaque function argument {v!r}")
@@ -199,7 +199,7 @@ def bsum_view(I, s: View):
     n = _iv(s.n)
     off = _iv(s.off)
     t = _bsum(s.base, off, n)
-    fid = ("bsum", t.get_id())
+    fid = ("bsum", tid(t))
     if fid not in I.path.facts_done:
         I.path.facts_done.add(fid)
         I.path.assume(z3.Implies(n <= 0, t == 0))
@@ -238,7 +238,7 @@ def fold_view(I, fn, acc, s: View, name):
     a = acc.as_bv()
     n, off = _iv(s.n), _iv(s.off)
     t = F(a, s.base, off, n)
-    fid = ("fold", name, t.get_id())
+    fid = ("fold", name, tid(t))
     res = VInt(b=t, lo=0, hi=255)
     if fid not in I.path.facts_done:
         I.path.facts_done.add(fid)
@@ -563,6 +563,9 @@ def call_type(I, t: VType, args, kwargs):
         if isinstance(a, VStr):
             from . import libmodels
             return libmodels.int_of_str(I, a, args[1:] , kwargs)
+        if isinstance(a, VRef) and I.hobj(a).kind == "ext" and I.hobj(a).meta.get("tag") == "json":
+            from . import libmodels
+            return libmodels.int_of_ext(I, a)
         I.raise_py("builtins.TypeError", "int() argument")
     if n == "float":
         a = I.resolve(args[0])
@@ -791,7 +794,7 @@ def int_from_bytes(I, fv, args, kw):
     if order.c == "big":
         bs.reverse()
     if n and all(not isinstance(b, int) for b in bs):
-        hit = I.path.memo.get(("tobytes", "little") + tuple(z3.simplify(b).get_id() for b in bs))
+        hit = I.path.memo.get(("tobytes", "little") + tuple(tid(b) for b in bs))
         if hit is not None:
             return hit[0]          # from_bytes(to_bytes(x)) = x  (to_bytes checked the range)
     acc = mkint(0)
